@@ -540,7 +540,7 @@ fn judge(c: &mut Case, p: &Parts, mutated: bool, kinds: &str, family: &str) -> C
     Ok(())
 }
 
-fn sub_arraydata(c: &mut Case) -> CaseResult {
+pub fn sub_arraydata(c: &mut Case) -> CaseResult {
     let mut cfg = TypeCfg::all();
     cfg.depth = 2;
     let ty = gen_type(&mut c.tape, &cfg);
